@@ -692,7 +692,8 @@ Proof.
   intros Ha Hnd Hall Hsp Hno Hmx Hin.
   assert (Hv : valid_spec sp = true).
   { unfold assignments in Ha. destruct (valid_config specs) eqn:E; [|discriminate].
-    unfold valid_config in E. destruct specs; [discriminate|].
+    unfold valid_config in E. apply andb_prop in E. destruct E as [E _].
+    apply andb_prop in E. destruct E as [E _]. unfold valid_specs in E. destruct specs; [discriminate|].
     rewrite forallb_forall in E. now apply E. }
   assert (Hmn : (ss_minn sp <? 0) = false /\ (ss_maxn sp <? ss_minn sp) = false).
   { unfold valid_spec in Hv. rewrite !andb_true_iff, !negb_true_iff in Hv. tauto. }
